@@ -65,6 +65,14 @@ def main():
         sh("git -C /repo worktree remove --force %s" % wt)
         sh("rm -rf /tmp/wt/replays_%s /tmp/wt/evidence_%s" % (sid, sid))
     info["checks"] = res
+    # keep the result of an earlier evaluation (before the checks were strengthened) for the record
+    prev_path = os.path.join(out, "meta.json")
+    if os.path.exists(prev_path):
+        try:
+            prev = json.load(open(prev_path))
+            info["first_pass"] = prev.get("first_pass") or {"checks": prev.get("checks"), "detected_by": prev.get("detected_by")}
+        except Exception:
+            pass
     info["detected_by"] = sorted(c for c, v in res.items() if v["exit"] == 1 and v["violations"] > 0)
     json.dump(info, open(os.path.join(out, "meta.json"), "w"), indent=1)
     print(json.dumps({k: info[k] for k in ("id", "confirmed", "detected_by")}), {c: (v["exit"], v["violations"], v["inconclusive"], v["wall_s"]) for c, v in res.items()})
